@@ -7,6 +7,7 @@ CONSTANTS
   Ops = {"newuser","setuser","deluser","getuser","list","restart","login","update1","update2"}
   SubKinds = {"put","ren","del"}
   Thin = TRUE
+  XPw = FALSE
   Long = FALSE
   Rand = FALSE
 INIT Init
